@@ -776,22 +776,9 @@ fn render(m: &Model) -> GenCase {
     c
 }
 
-/// Defect models of recorded findings (see known_findings.json).
-fn classify(c: &GenCase, r: &CaseResult, f: &Finding) -> Option<String> {
-    // c11-raw-ident-variant: a raw-identifier variant makes IsVariant/Unwrap/TryUnwrap panic while building the
-    // method name (`is_r#foo` is not a valid identifier). Exactly that and nothing else: every diagnostic of
-    // the case is that panic.
-    if c.expect_compile && !r.compiled && c.meta["raw_ident"] == json!(true) && c.meta["name_derives"] == json!(true) && f.expected == "compiles" {
-        let all = !r.errors.is_empty()
-            && r.errors.iter().all(|d| {
-                d.message.contains("proc-macro derive panicked")
-                    && d.rendered.contains("is not a valid identifier")
-                    && (d.rendered.contains("`\"is_r#") || d.rendered.contains("`\"unwrap_r#") || d.rendered.contains("`\"try_unwrap_r#"))
-            });
-        if all {
-            return Some("c11-raw-ident-variant".into());
-        }
-    }
+fn classify(_c: &GenCase, _r: &CaseResult, _f: &Finding) -> Option<String> {
+    // no recorded finding of C11 is open (the raw-identifier panic found on the way is repaired in the tree:
+    // known_findings.json, c18-raw-ident-variant-accessor)
     None
 }
 
@@ -803,8 +790,8 @@ pub fn prop() -> DiceProp {
         nightly: false,
         check_only: false,
         ndice: 260,
-        quick: (420, 1),
-        thorough: (900, 6),
+        quick: (800, 1),
+        thorough: (1600, 6),
         build,
         fixed: no_fixed,
         classify,
